@@ -26,94 +26,6 @@ func c36Gen(t *rapid.T) c36Case {
 	return c
 }
 
-// c36Build feeds m through a Builder.
-func c36Build(m *Message, prefix int, compress, startEmpty bool) ([]byte, error) {
-	buf := make([]byte, prefix, prefix+64)
-	for i := range buf {
-		buf[i] = 0xC0 // looks like a pointer: must never be interpreted
-	}
-	b := NewBuilder(buf, m.Header)
-	if compress {
-		b.EnableCompression()
-	}
-	if len(m.Questions) > 0 || startEmpty {
-		if err := b.StartQuestions(); err != nil {
-			return nil, fmt.Errorf("StartQuestions: %v", err)
-		}
-	}
-	for i := range m.Questions {
-		if err := b.Question(m.Questions[i]); err != nil {
-			return nil, fmt.Errorf("Question %d: %v", i, err)
-		}
-	}
-	secs := []struct {
-		name  string
-		start func() error
-		rs    []Resource
-	}{
-		{"Answers", b.StartAnswers, m.Answers},
-		{"Authorities", b.StartAuthorities, m.Authorities},
-		{"Additionals", b.StartAdditionals, m.Additionals},
-	}
-	for _, s := range secs {
-		if len(s.rs) > 0 || startEmpty {
-			if err := s.start(); err != nil {
-				return nil, fmt.Errorf("Start%s: %v", s.name, err)
-			}
-		}
-		for i := range s.rs {
-			h := s.rs[i].Header
-			var err error
-			switch body := s.rs[i].Body.(type) {
-			case *AResource:
-				err = b.AResource(h, *body)
-			case *AAAAResource:
-				err = b.AAAAResource(h, *body)
-			case *NSResource:
-				err = b.NSResource(h, *body)
-			case *CNAMEResource:
-				err = b.CNAMEResource(h, *body)
-			case *SOAResource:
-				err = b.SOAResource(h, *body)
-			case *PTRResource:
-				err = b.PTRResource(h, *body)
-			case *MXResource:
-				err = b.MXResource(h, *body)
-			case *TXTResource:
-				err = b.TXTResource(h, *body)
-			case *SRVResource:
-				err = b.SRVResource(h, *body)
-			case *SVCBResource:
-				err = b.SVCBResource(h, *body)
-			case *HTTPSResource:
-				err = b.HTTPSResource(h, *body)
-			case *OPTResource:
-				err = b.OPTResource(h, *body)
-			case *UnknownResource:
-				err = b.UnknownResource(h, *body)
-			default:
-				err = fmt.Errorf("unexpected body %T", body)
-			}
-			if err != nil {
-				return nil, fmt.Errorf("%s[%d] (%T): %v", s.name, i, s.rs[i].Body, err)
-			}
-		}
-	}
-	out, err := b.Finish()
-	if err != nil {
-		return nil, fmt.Errorf("Finish: %v", err)
-	}
-	if len(out) < prefix+headerLen {
-		return nil, fmt.Errorf("Finish returned %d bytes for a prefix of %d", len(out), prefix)
-	}
-	for i := 0; i < prefix; i++ {
-		if out[i] != 0xC0 {
-			return nil, fmt.Errorf("Builder changed byte %d of the caller's prefix", i)
-		}
-	}
-	return out[prefix:], nil
-}
-
 // c36SetTypes fills Header.Type the way packing documents it ("set automatically").
 func c36SetTypes(m *Message) {
 	for _, sec := range [][]Resource{m.Answers, m.Authorities, m.Additionals} {
@@ -165,7 +77,7 @@ func c36Prop(c c36Case, r *vp.Rec) error {
 
 	// 2. Builder without compression
 	m1, _ := c.Msg.build()
-	plain, err := c36Build(&m1, c.Prefix, false, c.StartEmpty)
+	plain, err := dmBuild(&m1, c.Prefix, false, c.StartEmpty)
 	if err != nil {
 		return fmt.Errorf("Builder (no compression): %v", err)
 	}
@@ -179,7 +91,7 @@ func c36Prop(c c36Case, r *vp.Rec) error {
 
 	// 3. Builder with compression
 	m2, _ := c.Msg.build()
-	comp, err := c36Build(&m2, c.Prefix, true, c.StartEmpty)
+	comp, err := dmBuild(&m2, c.Prefix, true, c.StartEmpty)
 	if err != nil {
 		return fmt.Errorf("Builder (compression): %v", err)
 	}
